@@ -23,7 +23,7 @@ RULE = (
     "(a) PatchedCounts/PatchedSumWeights/NormalisedCounts x bins{1,2,3} x patches{2..5} x auto/cross x "
     "contents {fingerprint 2^(iN+j)3^b, every single-cell array, every 0/1 array for N<=3, auto containers with a full (not upper triangular) matrix}; "
     "(b) CorrFunc member subsets x auto/cross -> sample() and from_corrfuncs with {none,ref,unk,both}; "
-    "(c) HistData.from_catalog on 2..4 patch catalogs; (d) all sample matrices over {0,1,2} with M*B<=6 "
+    "(c) HistData.from_catalog on 2..4 patch catalogs, also on the cache reopened with two workers under every completion order of the loading and histogram pools; (d) all sample matrices over {0,1,2} with M*B<=6 "
     "plus fingerprints and matrices with one NaN / inf entry in every position; normalised counts with all weight of a bin in one patch (0/0 samples; binary and decimal values); resample_jackknife directly on 2..400 (2000) patches (also scaled by 2^-50 / 2^60); sampling again after PatchedCounts.set_patch_pair; containers of B x N = (33,3), (40,3), (70,2), (30,200) (block-wise summation thresholds); joint covariance of two sample sets in both layouts (rowvar); and the same matrices on top of a common value 1e6 (exact shift invariance, tolerance 1e-8); (e) pipeline with patch k removed from all frames. Oracle: explicit-loop "
     "leave-one-out recomputation in patch-index order, (N-1)/N sum (x_k-mean)(x_k-mean)^T. Non-trivial: "
     "contents in which a permutation/loss of a patch changes some sample (asserted per case)."
@@ -431,6 +431,36 @@ def run_hist(case):
                       f"{es.tolist()} (N={N})"))
     if not ref.close(h.covariance, ref.ref_cov(h.samples), rtol=1e-10, atol=1e-12):
         v.append(viol("C03/covariance/wrong", "HistData covariance != jackknife covariance of its samples"))
+    if v or N < 3:
+        return v, True
+    # the same cache reopened and used with two workers: every completion order of the loading pool and of the
+    # histogram pool (virtual pool); sample k must still leave out patch k
+    from vlib import vmp
+
+    def body():
+        c2 = yaw.Catalog(d + "/c")
+        h2 = yaw.HistData.from_catalog(c2, config)
+        if not np.array_equal(h2.data, tot):
+            return "data-wrong"
+        if not np.array_equal(h2.samples, es):
+            return "samples-permuted" if np.array_equal(np.sort(h2.samples, axis=0), np.sort(es, axis=0)) else "samples-wrong"
+        return "ok"
+
+    vmp.install(workers=2)
+    try:
+        res = vmp.explore(body, max_exec=4000)
+    finally:
+        vmp.uninstall()
+        yawx.sequential()
+    if res["capped"]:
+        raise RuntimeError(f"execution cap hit in the reopened-catalog histories of {case}")
+    for key, o in res["outcomes"].items():
+        ex = o["example"]
+        verdict = ex["value"] if ex["verdict"] == "ok" and ex["exc"] is None else f"failed:{ex['verdict']}:{type(ex['exc']).__name__}"
+        if verdict != "ok":
+            v.append(viol(f"C03/HistData/reopened-W2/{verdict}",
+                          f"catalog reopened with 2 workers, pool completion orders {[p['order'] for p in ex['pools']]}: "
+                          f"histogram {verdict} (N={N}, {o['count']} of {res['executions']} executions)"))
     return v, True
 
 
